@@ -3,7 +3,7 @@
 from __future__ import annotations
 
 from checks.common import Reporter, confirm_minimise_report, default_workers, run_regressions
-from simkit.core import Evidence, log, merge_counts, run_seed
+from simkit.core import mark_cover, reach_report, Evidence, log, merge_counts, run_seed
 from simkit.pool import ZygotePool, unwrap
 from worlds import fmtworld
 
@@ -36,6 +36,7 @@ def main(tier: str, seed: int, opts) -> int:
     log(f"[C14] VERIF_SEED={seed} tier={tier} programs={n} batches={len(jobs)}")
     with ZygotePool(workers=default_workers(), preload="worlds.fmtworld,checks.c14") as pool:
         n_reg = run_regressions(rep, pool, PROP)
+        mark_cover(jobs)
         results = [unwrap(r, "C14 batch") for r in pool.map(jobs, progress="C14")]
         faults: dict = {}
         hashes, nthashes, trans = set(), set(), set()
@@ -75,6 +76,7 @@ def main(tier: str, seed: int, opts) -> int:
                                             candidates=fmtworld.candidates,
                                             meta={"verif_seed": seed, "run_index": idx, "tier": tier})
         digest_all = __import__("hashlib").sha256("".join(r["log_digest"] for r in results).encode()).hexdigest()
+    cover_hits = set(pool.cover_hits)
     ev.cov.update(
         {
             "evaluations": programs,
@@ -101,6 +103,7 @@ def main(tier: str, seed: int, opts) -> int:
             "unconfirmed_search_hits": len(rep.unconfirmed),
             "known_findings_seen": len(rep.known),
             "regression_replays_run": n_reg,
+        "anchored_code_reach": reach_report(PROP, cover_hits),
         }
     )
     ev.violations = len(rep.violations)
